@@ -106,7 +106,8 @@ impl Storage {
     // GATE (C03/C09: "every block after the script's own recorded block number is examined"): the scripts a batch of filters
     // is matched against are asked for with a bound that covers the whole batch
     #[verifier::external_body]
-    pub fn get_scripts_hash(&self, block_number: u64) -> (r: Vec<Byte32>) requires scripts_cover_ok(block_number) { unimplemented!() }
+    pub fn get_scripts_hash(&self, block_number: u64) -> (r: Vec<Byte32>) requires scripts_cover_ok(block_number) ensures r == self.s_scripts_hash(block_number) { unimplemented!() }
+    pub uninterp spec fn s_scripts_hash(&self, block_number: u64) -> Vec<Byte32>;      // hashes of the scripts recorded below block_number (body: unit storage_meta)
     // GATES
     #[verifier::external_body]
     pub fn update_min_filtered_block_number(&self, block_number: u64)
@@ -209,4 +210,27 @@ pub struct BlockFilterCheckPointsProcess<'a> {
     pub protocol: &'a FilterProtocol,
     pub nc: NetCtxArc,
     pub peer_index: PeerIndex,
+}
+// ----- GCS filter matching (golomb_coded_set, dependency): whether a block filter matches one of the script hashes -----
+pub uninterp spec fn gcs_match(filter: Seq<u8>, scripts: Seq<Byte32>) -> bool;
+pub struct GcsReader { pub x: u8 }
+pub struct CursorB { pub ghost data: Seq<u8>, pub x: u8 }             // std::io::Cursor<Bytes>
+#[derive(Debug)]
+pub struct GcsError { pub x: u8 }
+#[verifier::external_body]
+pub fn vf_gcs_reader() -> (r: GcsReader) { unimplemented!() }
+pub struct Cursor { pub x: u8 }
+impl Cursor {
+    #[verifier::external_body]
+    pub fn new(b: RawBytes) -> (r: CursorB) ensures r.data == b@ { unimplemented!() }
+}
+// reader.match_any(&mut input, &mut script_hashes.iter().map(|v| v.as_slice()))
+#[verifier::external_body]
+pub fn vf_gcs_match_any(reader: &GcsReader, input: &mut CursorB, script_hashes: &Vec<Byte32>) -> (r: core::result::Result<bool, GcsError>)
+    // (an in-memory cursor never fails to read: the dependency's Err is an I/O error)
+    ensures r is Ok, r->Ok_0 == gcs_match(old(input).data, script_hashes@) { unimplemented!() }
+impl Byte32VecE2 {
+    pub fn get(&self, i: usize) -> (r: Option<Byte32>)
+        ensures r.is_some() == (i < self.items@.len()), r.is_some() ==> r.unwrap() == self.items@[i as int]
+    { if i < self.items.len() { Some(self.items[i].clone()) } else { None } }
 }
